@@ -33,6 +33,17 @@ def plan(tier, seed):
                 slices.append({'id': 'txt:%s:%s:L%d%s' % (g, lexer, Lt, '' if pin is None else ':pin%d' % pin), 'module': 'vfw.harness.txt', 'mode': 'realised',
                                'params': {'g': g, 'parser': 'earley', 'lexer': lexer, 'L': Lt, 'asserts': ['member', 'errpos'], 'pin': pin, 'mode': 'realised'},
                                'timeout': int(est * 2.5 + 40), 'twin': pin in (None, k - 1), 'bound': {'chars': Lt, 'classes': k}})
+    # text level, basic/contextual lexers: class, offset and line/column of the first offending token or character
+    for g, k in {'lines': 8, 'nlvia': 8, 'meta1': 7}.items():
+        for parser, lexer in (('lalr', 'contextual'), ('lalr', 'basic'), ('earley', 'basic')):
+            Lt = 3 if quick else 5
+            npaths = sum(k ** n for n in range(Lt + 1))
+            pins = [None] if npaths * 0.02 <= budget else list(range(k))
+            for pin in pins:
+                est = (npaths if pin is None else npaths / k) * 0.02
+                slices.append({'id': 'txtb:%s:%s:%s:L%d%s' % (g, parser, lexer, Lt, '' if pin is None else ':pin%d' % pin), 'module': 'vfw.harness.txt', 'mode': 'realised',
+                               'params': {'g': g, 'parser': parser, 'lexer': lexer, 'L': Lt, 'asserts': ['errpos'], 'pin': pin, 'mode': 'realised'},
+                               'timeout': int(est * 2.5 + 40), 'twin': pin in (None, k - 1), 'bound': {'chars': Lt, 'classes': k}})
     meta = {
         'rule': 'one path per viable token prefix plus one rejecting extension; every rejection is checked for class, first-offending-token position and '
                 'expected/accepts sets against the reference viable-prefix / next-terminal computation',
@@ -41,7 +52,7 @@ def plan(tier, seed):
                               'lark.parsers.lalr_parser._Parser.parse_from_state', 'lark.exceptions.UnexpectedToken.accepts',
                               'lark.parsers.lalr_interactive_parser.InteractiveParser.accepts', 'lark.parser_frontends.CYK_FrontEnd'],
         'bounds': {'tokens': L, 'grammars': len(corpus.TOK)},
-        'outside_bounds': ['grammars with unproductive rules', 'longer inputs', 'UnexpectedCharacters positions of the basic/contextual lexers (covered by C07 lex error positions)'],
+        'outside_bounds': ['grammars with unproductive rules', 'longer inputs', 'text level with the basic/contextual lexers: grammars whose lexing depends on the parser state (C07 ctxref covers their lexing)'],
         'stubs_and_assumes': ['tokens supplied by the documented custom-lexer interface; positions are token indices'],
     }
     return {'slices': slices, 'meta': meta}
